@@ -863,6 +863,14 @@ func corpusGM(cfg *config) []string {
 		"read mut " + hexBytes(nest("STRM", klv("TYPE", 'c', 1, 5, []byte("Lffff")), append([]byte{'F', 'A', 'C', 'E', 0, 20, 0, 1}, klv("ABCD", 'B', 1, 12, make([]byte, 12))...))),
 		"read wf " + hexBytes(nil),
 		"read mut " + hexBytes([]byte{1, 2, 3}),
+		// sensor elements at the top level of a payload (no device, no stream around them)
+		"read wf " + hexBytes(append(klv("SCAL", 's', 2, 1, []byte{0, 2}), klv("ACCL", 's', 6, 2, []byte{0, 10, 0, 20, 0, 30, 0, 40, 0, 50, 0, 60})...)),
+		"read wf " + hexBytes(klv("GYRO", 's', 6, 1, []byte{0, 1, 0, 2, 0, 3})),
+		"read wf " + hexBytes(klv("GPS5", 'l', 20, 1, make([]byte, 20))),
+		"read wf " + hexBytes(klv("WRGB", 'f', 12, 1, make([]byte, 12))),
+		"read wf " + hexBytes(append(klv("TYPE", 'c', 1, 5, []byte("Lffff")), klv("FACE", '?', 20, 1, make([]byte, 20))...)),
+		"read wf " + hexBytes(klv("FACE", '?', 20, 0, nil)),
+		"read wf " + hexBytes(append(klv("FCNM", 'B', 1, 1, []byte{2}), klv("ISOE", 'S', 2, 1, []byte{1, 144})...)),
 	}
 	for _, n := range []string{"hero5.raw", "fusion.raw", "hero6.raw", "hero6-multi-chunk.raw"} {
 		if d, err := os.ReadFile(filepath.Join(cfg.repo, "test", n)); err == nil {
